@@ -36,6 +36,12 @@ def _is_fargs(v):
     return isinstance(v, IObj) and v.cls.name == "FunctionArgs"
 
 
+def ConstSeqOf(items):
+    from .symseq import ConstSeq
+
+    return ConstSeq(tuple(items))
+
+
 class GBCall:
     def __init__(self):
         self.keys = []
@@ -154,10 +160,32 @@ def run_gb(c, it, a, k):
         for i in range(nd_out):
             ctx.assume(oc[i] < nb0[i])
         if output_blocks is not None:
+            # explicit task list: the generic task is a generic element of the iterable the caller supplied
+            # (its real __iter__ is interpreted); GB.tasks: the advertised count equals the number of listed blocks
             h = getattr(c, "gb_output_blocks", None)
-            if h is None:
-                raise Unsupported("general_blockwise with output_blocks but no task-set contract")
-            h(it, oc, output_blocks, rec)
+            if h is not None:
+                h(it, oc, output_blocks, rec)
+            else:
+                seq = it.builtins["iter"](output_blocks) if not isinstance(output_blocks, SymSeq) else output_blocks
+                if isinstance(seq, GenList):
+                    seq = ConstSeqOf(list(seq))
+                if not isinstance(seq, SymSeq):
+                    raise Unsupported("output_blocks is not an interpretable iterable")
+                ntasks = seq.length()
+                rec.listed_tasks = ntasks
+                if num_tasks is not None:
+                    _oblige(it, f"{tag}.tasks:num_tasks-equals-number-of-listed-blocks", num_tasks == ntasks)
+                kk = ctx.fresh_int("tk", lo=0)
+                ctx.assume(kk < ntasks)
+                if ctx.feasible():
+                    el = seq.get(it, kk)
+                    el = list(el) if not isinstance(el, SymSeq) else list(el._pyvc_iter(it))
+                    if len(el) != nd_out:
+                        _oblige(it, f"{tag}.tasks:listed-block-rank", False)
+                        raise _Abort()
+                    _oblige(it, f"{tag}.tasks:listed-blocks-lie-in-the-output-grid", z3.And(*[tb((e >= 0) & (e < n)) for e, n in zip(el, nb0)]) if el else True)
+                    for x, e in zip(oc, el):
+                        ctx.assume(x == e)
         if ctx.feasible():
             rec.oc = oc
             CK = it.world.lookup("cubed.primitive.blockwise:ChunkKey")
@@ -444,6 +472,10 @@ def install(c):
             e = as_grid(it, g0).grid_eq(as_grid(it, g1))
             same = e if same is True else (same & e)
         if it.truth(same):
+            # equal sequences have equal lengths: link the block counts of the two descriptions of the same grid
+            # (a valid consequence, it lets the quotient lemmas see the requested chunk size as divisor)
+            for g0, g1 in zip(x.attrs["_chunks"], grids):
+                it.ctx.assume_def(tz(as_grid(it, g0).length()) == tz(as_grid(it, g1).length()))
             return x
         from .arrays import fresh_name
 
